@@ -36,7 +36,7 @@ TRUSTED = ["Model/C11_Model.v is hand-written; tied to boltons.setutils.IndexedS
            "harness/translators/{py2coq,c11_src}.py (Gen/C11_Src.v: _get_real_index and _get_apparent_index regenerated from "
            "the source each run; C11_source_real_index / C11_source_apparent_index prove them equal to the model's loops)",
            "harness/translators/c11_cull.py (Gen/C11_Cull.v: _cull regenerated from the source each run - branch order, "
-           "conditions, constants, both right-trim loops; C11_source_cull proves it equal to the model's m_cull)"]
+           "conditions, constants, both right-trim loops - and _add_dead; C11_source_cull / C11_source_add_dead prove them equal to the model)"]
 
 DG_MOD = 2305843009213693951
 BAD_TOK = 999999
